@@ -18,4 +18,5 @@ EXTRAS = [
     lambda rep, fb, tier: origin.rule_origin(rep, fb),
     lambda rep, fb, tier: records.rule_regular_length(rep, fb),
     lambda rep, fb, tier: __import__("vf.rules.methodrules", fromlist=["x"]).rule_index_content(rep, fb),
+    lambda rep, fb, tier: __import__("vf.rules.lints", fromlist=["x"]).rule_shape_subscript(rep, fb),
 ]
